@@ -203,6 +203,13 @@ func checkSentence(c sentCase) (h.Info, error) {
 		info = h.Info{Class: "sentence/bad-length"}
 	default:
 		info = h.Info{Class: "sentence/bad-word", NT: true}
+		for _, p := range mgen.KnownImpostors(c.Lang) {
+			for _, w := range c.Words {
+				if w == p[0] {
+					info.Class = "sentence/hash-impostor-word"
+				}
+			}
+		}
 	}
 	in := append(bip39.Mnemonic{}, c.Words...)
 	got, err := bip39.MnemonicToEntropy(in)
@@ -260,6 +267,13 @@ func genSentence(t *rapid.T) sentCase {
 		other = list(langs[0])
 	}
 	var words []string
+	if h.Pick(t, "impostor", 14, 1) == 1 {
+		// a sentence that is valid except that one word is replaced by a string outside the list with the
+		// same 32-bit FNV hash as that word
+		if w, ok := mgen.ImpostorSentence(t, l, lang); ok {
+			return sentCase{lang, w}
+		}
+	}
 	switch h.Pick(t, "k", 6, 3, 2) {
 	case 0, 1: // start from a valid sentence
 		n := 16 + 4*rapid.IntRange(0, 12).Draw(t, "n")
@@ -282,8 +296,77 @@ func TestSentences(t *testing.T) {
 	h.Run(t, h.Sub[sentCase]{
 		Prop: "C03", Name: "sentence-decode", N: 25000,
 		Gen: genSentence, Check: checkSentence,
-		Require: []string{"sentence/accept", "sentence/bad-checksum", "sentence/bad-length", "sentence/bad-word"},
-		Rule:    "word sequences built from list indices: valid sentences (incl. leading-zero entropies), 0..2 mutations (other word, last word, foreign-list word, malformed word, drop, duplicate, swap), arbitrary index sequences of length 0..51; accept iff length in {12..48 step 3}, all words in the list and checksum bits match; accepted sentences re-encode to themselves; documented error kinds; non-trivial = passes the length check; distinct by (list, words)",
+		Require: []string{"sentence/accept", "sentence/bad-checksum", "sentence/bad-length", "sentence/bad-word", "sentence/hash-impostor-word"},
+		Rule:    "word sequences built from list indices: valid sentences (incl. leading-zero entropies), 0..2 mutations (other word, last word, foreign-list word, malformed word, drop, duplicate, swap), sentences valid except for one word replaced by a non-list string with the same 32-bit FNV-1a/FNV-1 hash (found by exhaustive search over short strings), arbitrary index sequences of length 0..51; accept iff length in {12..48 step 3}, all words in the list and checksum bits match; accepted sentences re-encode to themselves; documented error kinds; non-trivial = passes the length check; distinct by (list, words)",
+	})
+}
+
+// ---- concurrent first use of a freshly selected word list ----
+
+type concCase struct {
+	Lang      string     `json:"lang"`
+	Sentences [][]string `json:"sentences"`
+	Trials    int        `json:"trials"`
+}
+
+func checkConcurrent(c concCase) (h.Info, error) {
+	l := list(c.Lang)
+	type exp struct {
+		ent []byte
+		err error
+	}
+	want := make([]exp, len(c.Sentences))
+	acc := 0
+	for i, w := range c.Sentences {
+		want[i].ent, want[i].err = ref.Decode(l, w)
+		if want[i].err == nil {
+			acc++
+		}
+	}
+	info := h.Info{Class: fmt.Sprintf("%s/goroutines=%d", c.Lang, len(c.Sentences)), NT: acc > 0}
+	for trial := 0; trial < c.Trials; trial++ {
+		// selecting a list gives the package a fresh list object: its first lookups happen under contention
+		if err := bip39.SetWordList(c.Lang); err != nil {
+			return info, err
+		}
+		err := h.Parallel(len(c.Sentences), func(g int) error {
+			for it := 0; it < 2; it++ {
+				got, err := bip39.MnemonicToEntropy(append(bip39.Mnemonic{}, c.Sentences[g]...))
+				if (err == nil) != (want[g].err == nil) || (err == nil && !bytes.Equal(got, want[g].ent)) {
+					return fmt.Errorf("trial %d, goroutine %d of %d decoding right after SetWordList(%q): MnemonicToEntropy(%q) = %x, %v; reference %x, %v", trial, g, len(c.Sentences), c.Lang, c.Sentences[g], got, err, want[g].ent, want[g].err)
+				}
+				if err == nil {
+					if re, err := bip39.EntropyToMnemonic(got); err != nil || !eqWords(re, c.Sentences[g]) {
+						return fmt.Errorf("trial %d, goroutine %d of %d right after SetWordList(%q): EntropyToMnemonic(%x) = %q, %v", trial, g, len(c.Sentences), c.Lang, got, re, err)
+					}
+				}
+			}
+			return nil
+		})
+		if err != nil {
+			return info, err
+		}
+	}
+	return info, nil
+}
+
+func TestConcurrentFirstUse(t *testing.T) {
+	h.Run(t, h.Sub[concCase]{
+		Prop: "C03", Name: "concurrent-first-use", N: 64,
+		Gen: func(t *rapid.T) concCase {
+			c := concCase{Lang: h.OneOf(t, "lang", langs...), Trials: 30}
+			for i := h.OneOf(t, "g", 2, 4, 8); i > 0; i-- {
+				s := genSentence(t)
+				if rapid.Bool().Draw(t, "valid") {
+					s.Words = mgen.ValidSentence(t, list(c.Lang))
+				}
+				c.Sentences = append(c.Sentences, s.Words)
+			}
+			return c
+		},
+		Check:   checkConcurrent,
+		Require: []string{"english/goroutines=2", "japanese/goroutines=8", "english/goroutines=4"},
+		Rule:    "schedules: 30 trials per case; in each the word list is selected anew (SetWordList) and 2..8 goroutines released together decode their own valid or mutated sentence (twice) and re-encode the result; every verdict and entropy = reference; non-trivial = at least one valid sentence",
 	})
 }
 
